@@ -345,8 +345,12 @@ def native_sampling(po, shape, seed, n):
             rej += 1
             continue
         ran += 1
-        if exc and len(excs) < 3:
-            excs.append(exc)
+        if exc:
+            if len(excs) < 3:
+                excs.append(exc)
+            # the PO text lets only rejections pass: any other exception escaping the real code is a failed obligation natively too
+            if len(fails) < 5:
+                fails.append({"clause": "no-exception-escapes:" + exc.split(":", 1)[0].split(".")[-1], "inputs": {k: _serx(v) for k, v in S.inputs.items()}, "detail": exc})
         for name, ok, detail in results:
             if not ok and len(fails) < 5:
                 fails.append({"clause": name, "inputs": {k: _serx(v) for k, v in S.inputs.items()}, "detail": detail})
